@@ -156,7 +156,7 @@ func idxOf(l []uint16, v uint16) int {
 func c18Scenarios(thorough bool) []*explore.Scenario {
 	n := 4
 	if thorough {
-		n = 32
+		n = 256
 	}
 	return []*explore.Scenario{c18Scenario(gridClients(n, true))}
 }
@@ -164,7 +164,7 @@ func c18Scenarios(thorough bool) []*explore.Scenario {
 func init() {
 	register(&Prop{ID: "C18", Level: "exploration", Variant: "A", Scenarios: c18Scenarios,
 		Run: func(c *explore.Check, thorough bool) {
-			c.Rule = "every discovered ID, 4 (32) seeds per randomized kind, custom specs, fingerprinted copies x the server forced (CurvePreferences singleton) to EACH group the hello carries a share for x 3 consecutive connections with per-connection scripted entropy: strict per-group share sizes (32/65/97/133/1216), handshake + echo succeeds for every offered share without HRR, negotiated group reported, client random / session id / every key share pairwise distinct across connections. distinct = (client, selected group)"
+			c.Rule = "every discovered ID, 4 (256) seeds per randomized kind, custom specs, fingerprinted copies x the server forced (CurvePreferences singleton) to EACH group the hello carries a share for x 3 consecutive connections with per-connection scripted entropy: strict per-group share sizes (32/65/97/133/1216), handshake + echo succeeds for every offered share without HRR, negotiated group reported, client random / session id / every key share pairwise distinct across connections. distinct = (client, selected group)"
 			c.Assumptions = []string{"freshness is decided as non-repetition under different per-connection Config.Rand streams", "QUIC's empty legacy session id is checked by C23"}
 			runAll(c, c18Scenarios(thorough), 0)
 			c.Gate(c.Total.Counters["non_first_share_selected"] > 10, "non-vacuity: non-first share selected %d times", c.Total.Counters["non_first_share_selected"])
